@@ -62,6 +62,10 @@ type Field struct {
 	Enum         []int64 // if set: the only values generated (defined enum values)
 	Bounds       []int64 // extra boundary values for wild generation
 	MustOnlyEven bool
+	// Legacy: values an earlier revision of the specification defines and a
+	// sender may therefore legitimately use (generated now and then); the
+	// encoder is not obliged to take them
+	Legacy []int64
 }
 
 // CmdDesc describes one standard MAC command (direction x CID).
@@ -144,7 +148,7 @@ var Descs = []CmdDesc{
 			}
 			return []int64{int64(v.DataRate), int64(v.TXPower), m, int64(v.Redundancy.ChMaskCntl), int64(v.Redundancy.NbRep)}, true
 		}},
-	{Name: "DutyCycleReq", Up: false, CID: 0x04, Size: 1, Fields: []Field{u8("MaxDCycle", 15)},
+	{Name: "DutyCycleReq", Up: false, CID: 0x04, Size: 1, Fields: []Field{{Name: "MaxDCycle", MustLo: 0, MustHi: 15, TypeLo: 0, TypeHi: 255, Legacy: []int64{255}}}, // 255: "device off" of LoRaWAN 1.0.x
 		ToLib: func(f []int64) lorawan.MACCommandPayload {
 			return &lorawan.DutyCycleReqPayload{MaxDCycle: uint8(f[0])}
 		},
@@ -529,11 +533,20 @@ func (f Field) GenValid(r *sim.Rand) int64 {
 			if f.Freq24 {
 				return 2400000000 + int64(r.Intn(500000))*200
 			}
+		case 3:
+			if f.Freq24 {
+				// both ends of the 200 Hz range
+				return []int64{2400000000, 2400000200, (1<<24 - 1) * 200, (1<<24 - 2) * 200}[r.Intn(4)]
+			}
+			return []int64{100, (1<<24 - 2) * 100}[r.Intn(2)]
 		}
 		if f.Freq24 {
 			return int64(r.Intn(12000000)) * 100
 		}
 		return int64(r.Intn(1<<24)) * 100
+	}
+	if len(f.Legacy) > 0 && r.Intn(6) == 0 {
+		return f.Legacy[r.Intn(len(f.Legacy))]
 	}
 	span := f.MustHi - f.MustLo + 1
 	var v int64
